@@ -130,11 +130,12 @@ def digitsVal : List Char → Nat → Option Nat
 
 /-- Rust `<unsigned>::from_str`: optional leading `+`, at least one ASCII digit, no whitespace,
 value below `bound`. -/
+def stripPlus : List Char → List Char
+  | '+' :: r => r
+  | r => r
+
 def parseUnsigned (bound : Nat) (s : String) : Option Nat :=
-  let cs := s.toList
-  let ds := match cs with
-    | '+' :: r => r
-    | r => r
+  let ds := stripPlus s.toList
   if ds.isEmpty then none else
   match digitsVal ds 0 with
   | some n => if n < bound then some n else none
